@@ -35,11 +35,11 @@ def _discover():
 
 # classes whose round trip is not discharged by pyvc yet, with the reason (they are covered by the bounded stand-in only)
 NOT_ATTEMPTED = {
-    "A": "f-string field '' of symbolic SInt",
+    "A": "address kept as text: str.encode / inet_aton of a symbolic string has no model",
     "AAAA": "call of 'hexlify' with symbolic arguments has no model",
     "AFSDB": "embedded domain name: needs a functional decoder contract (get_name vs wire_enc), not built yet",
-    "AMTRELAY": "f-string field '' of symbolic SInt",
-    "APL": "f-string field '' of symbolic SInt",
+    "AMTRELAY": "relay is one of four shapes chosen by a type octet (None / IPv4 / IPv6 / name): loop state of mixed type",
+    "APL": "list of address-prefix items with text addresses: exploration does not finish within 240 s",
     "AVC": "codec loops over items (needs a loop invariant) / solver time above the 150 s limit",
     "CH-A": "embedded domain name: needs a functional decoder contract (get_name vs wire_enc), not built yet",
     "CNAME": "embedded domain name: needs a functional decoder contract (get_name vs wire_enc), not built yet",
@@ -49,9 +49,9 @@ NOT_ATTEMPTED = {
     "GPOS": "isdigit on a string of unknown length",
     "HIP": "codec loops over items (needs a loop invariant) / solver time above the 150 s limit",
     "HTTPS": "for loop at line 5 over a symbolic sequence needs a loop invariant",
-    "IPSECKEY": "f-string field '' of symbolic SInt",
+    "IPSECKEY": "gateway is one of four shapes chosen by a type octet (None / IPv4 / IPv6 / name): loop state of mixed type",
     "KX": "embedded domain name: needs a functional decoder contract (get_name vs wire_enc), not built yet",
-    "L32": "f-string field '' of symbolic SInt",
+    "L32": "address kept as text: str.encode / inet_aton of a symbolic string has no model",
     "L64": "no source for 'RdataStyle.__init__': could not get source code",
     "LOC": "constructor <class 'float'> with symbolic arguments has no model",
     "LP": "embedded domain name: needs a functional decoder contract (get_name vs wire_enc), not built yet",
@@ -79,7 +79,7 @@ NOT_ATTEMPTED = {
     "TSIG": "codec loops over items (needs a loop invariant) / solver time above the 150 s limit",
     "TXT": "codec loops over items (needs a loop invariant) / solver time above the 150 s limit",
     "WALLET": "codec loops over items (needs a loop invariant) / solver time above the 150 s limit",
-    "WKS": "f-string field '' of symbolic SInt"
+    "WKS": "address kept as text: str.encode / inet_aton of a symbolic string has no model"
 }
 
 # minutes of solver time (many validation branches): verified in the thorough tier only
